@@ -856,3 +856,47 @@ func SharedInputTwoOpsDefs(s *Schema, tag string, which int) []*Def {
 		{Kind: "query", Name: opB, Text: fmt.Sprintf("%squery %s(\n  # @genqlient(typename: \"%sIn\")\n  $v: %s,\n) {\n  %s(f: $v)\n}\n", dirB, opB, opB, in, fld)},
 	}
 }
+
+// TypenameEqualsAbstractFragmentDefs: a named fragment F on an INTERFACE (its selection: one leaf
+// field) spread by one operation, and in another operation a field of that interface type that
+// selects exactly the same leaf field and is given `typename: "F"`.  The two places need
+// different Go declarations (the field's selection carries the `__typename` genqlient adds to
+// abstract selections, a fragment's top level does not): this must be a conflict, whichever of
+// the two is converted first (firstField: the operation with the field sorts first).
+func TypenameEqualsAbstractFragmentDefs(s *Schema, tag string, firstField bool) []*Def {
+	for _, f := range s.FieldsOf("Query") {
+		td := s.Get(f.Type.Base())
+		if td == nil || td.Kind != "INTERFACE" || len(s.PossibleTypes(td.Name)) == 0 {
+			continue
+		}
+		req := false
+		for _, a := range f.Args {
+			if a.Type.NonNull && a.Default == "" {
+				req = true
+			}
+		}
+		if req {
+			continue
+		}
+		ileaf := ""
+		for _, lf := range td.Fields {
+			if s.IsLeaf(lf.Type.Base()) && len(lf.Args) == 0 {
+				ileaf = lf.Name
+			}
+		}
+		if ileaf == "" {
+			continue
+		}
+		fr := "Hz" + tag + "Frag"
+		qs, qf := "Hz"+tag+"Q1", "Hz"+tag+"Q2"
+		if firstField {
+			qs, qf = qf, qs
+		}
+		return []*Def{
+			{Kind: "fragment", Name: fr, Text: fmt.Sprintf("fragment %s on %s {\n  %s\n}\n", fr, td.Name, ileaf)},
+			{Kind: "query", Name: qs, Text: fmt.Sprintf("query %s {\n  %s {\n    ...%s\n  }\n}\n", qs, f.Name, fr)},
+			{Kind: "query", Name: qf, Text: fmt.Sprintf("query %s {\n  # @genqlient(typename: \"%s\")\n  %s {\n    %s\n  }\n}\n", qf, fr, f.Name, ileaf)},
+		}
+	}
+	return nil
+}
